@@ -125,8 +125,6 @@ Definition restored (e : env) (s s' : state) : Prop :=
 Definition sbc (a b : state) : Prop :=
   vars a = vars b /\ maskv a = maskv b /\ mflags a = mflags b /\ conf a = conf b.
 Definition good (s : state) : Prop := NoDup (keys (vars s)) /\ NoDup (keys (conf s)).
-(* no active mask on a model variable *)
-Definition mask_clear (s : state) : Prop := forall k, In k (keys (vars s)) -> lookup k (maskv s) = None.
 (* not_full agrees with the selection (true after every set_used_chains) *)
 Definition nf_consistent (e : env) (s : state) : Prop := nfull s = nf_of e (cidx s).
 
@@ -149,16 +147,6 @@ Qed.
 
 Lemma good_eqm : forall s s', eqm s' s -> good s -> good s'.
 Proof. unfold eqm, good. intros s s' [A1 [_ [_ [_ A5]]]] [G1 G2]. rewrite A1, A5. tauto. Qed.
-Lemma clear_eqm : forall s s', eqm s' s -> mask_clear s -> mask_clear s'.
-Proof. unfold eqm, mask_clear. intros s s' [A1 [A2 _]] C k. rewrite A1, A2. apply C. Qed.
-
-Lemma get_all_dic_clear : forall s, mask_clear s -> get_all_dic s = vars s.
-Proof.
-  intros s C. unfold get_all_dic. rewrite <- (map_id (vars s)) at 2.
-  apply map_ext_in. intros [k v] Hin. cbn [fst snd].
-  rewrite C; [reflexivity|]. apply in_map_iff. exists (k, v). auto.
-Qed.
-
 (* ------------------------------------------------------------------ control flow *)
 
 Lemma try_finally_st : forall body fin w s,
@@ -274,26 +262,13 @@ Section RunFacts.
   Qed.
 
   (* ---- the managers ---- *)
-  Definition m_after (m : bool) (b : blk) : bool := match b with BMaskParams _ => true | _ => m end.
-  Definition is_temp_params (b : blk) : bool := match b with BTempParams _ => true | _ => false end.
-
-  Lemma safe_with : forall m b body, safe m (PWith b body) = true ->
-    safe (m_after m b) body = true /\ (is_temp_params b = true -> m = false).
+  Lemma blk_enter_inv : forall b s s1 sv, blk_enter e b s = Some (s1, sv) -> good s -> good s1.
   Proof.
-    intros m b body H. destruct b; cbn in *; try (split; [exact H|discriminate]).
-    apply andb_true_iff in H. destruct H as [H1 H2]. split; [exact H2|].
-    intros _. destruct m; [discriminate|reflexivity].
-  Qed.
-
-
-  Lemma blk_enter_inv : forall b s s1 sv, blk_enter e b s = Some (s1, sv) -> good s ->
-    good s1 /\ (mask_clear s -> m_after false b = false -> mask_clear s1).
-  Proof.
-    intros b s s1 sv E [G1 G2]. unfold good, mask_clear.
+    intros b s s1 sv E [G1 G2]. unfold good.
     destruct b; cbn [blk_enter] in E.
     - inversion E; subst; cbn. rewrite keys_set_all. tauto.
     - destruct (forallb _ _); [|discriminate]. inversion E; subst; cbn. rewrite keys_set_all. tauto.
-    - inversion E; subst; cbn. split; [tauto|]. intros _ D. discriminate.
+    - inversion E; subst; cbn. tauto.
     - inversion E; subst; cbn. tauto.
     - inversion E; subst; cbn. tauto.
     - destruct (has_key _ _); [|discriminate]. inversion E; subst; cbn.
@@ -302,14 +277,13 @@ Section RunFacts.
 
   (* exit of a manager after a body that gave the state back as it was at entry *)
   Lemma blk_exit_restores : forall b s s1 sv s2,
-    blk_enter e b s = Some (s1, sv) -> good s -> (is_temp_params b = true -> mask_clear s) ->
+    blk_enter e b s = Some (s1, sv) -> good s ->
     restored e s1 s2 -> restored e s (blk_exit e b sv s2).
   Proof.
-    intros b s s1 sv s2 E [G1 G2] C [[A1 [A2 [A3 [A4 A5]]]] N].
+    intros b s s1 sv s2 E [G1 G2] [[A1 [A2 [A3 [A4 A5]]]] N].
     destruct b; cbn [blk_enter] in E.
     - (* AbsPDF.temp_params *)
       inversion E; subst; clear E. cbn in *. unfold restored, eqm. cbn.
-      rewrite (get_all_dic_clear s (C eq_refl)).
       rewrite set_all_self; [|exact G1|rewrite A1; apply keys_set_all].
       repeat split; auto.
     - (* VarsManager.temp_params *)
@@ -329,27 +303,18 @@ Section RunFacts.
   Qed.
 
   (* ---- arbitrary nesting, an exception at any evaluation point ---- *)
-  Theorem run_restores : forall p m w s,
-    safe m p = true -> good s -> (m = false -> mask_clear s) ->
-    restored e s (st_of (snd (run e ev p w s))).
+  Theorem run_restores : forall p w s, good s -> restored e s (st_of (snd (run e ev p w s))).
   Proof.
-    induction p as [|a IHa b IHb|b body IH|h|body IH]; intros m w s Hs G C.
+    induction p as [|a IHa b IHb|b body IH|h|body IH]; intros w s G.
     - cbn [run]. rewrite tick_st. apply restored_refl.
-    - cbn [run]. cbn [safe] in Hs. apply andb_true_iff in Hs. destruct Hs as [Sa Sb].
-      pose proof (IHa m w s Sa G C) as Ra.
+    - cbn [run]. pose proof (IHa w s G) as Ra.
       destruct (run e ev a w s) as [w' [s'|s']]; cbn [snd st_of] in Ra |- *; [|exact Ra].
-      eapply restored_trans; [exact Ra|]. apply (IHb m); auto.
-      + eapply good_eqm; [apply Ra|exact G].
-      + intros Hm. eapply clear_eqm; [apply Ra|auto].
-    - cbn [run]. rewrite with_block_st. apply safe_with in Hs. destruct Hs as [Sb Ht].
+      eapply restored_trans; [exact Ra|]. apply IHb. eapply good_eqm; [apply Ra|exact G].
+    - cbn [run]. rewrite with_block_st.
       destruct (blk_enter e b s) as [[s1 sv]|] eqn:E; [|apply restored_refl].
-      destruct (blk_enter_inv b s s1 sv E G) as [G1 C1].
-      apply (blk_exit_restores b s s1 sv _ E G).
-      + intros T. apply C. apply Ht. exact T.
-      + apply (IH (m_after m b)); auto.
-        intros Hm. destruct b; cbn in Hm; try discriminate; subst m; apply C1; auto.
+      apply (blk_exit_restores b s s1 sv _ E G). apply IH. exact (blk_enter_inv b s s1 sv E G).
     - cbn [run]. apply run_helper_restores.
-    - cbn [run]. cbn [safe] in Hs. rewrite try_finally_st. apply chains_back.
+    - cbn [run]. rewrite try_finally_st. apply chains_back.
       assert (Hinv : (fun x => sbc x s /\ good x) (st_of (snd
                 (foreach (cidx s) (fun i w1 s1 =>
                    foreach (fnames_of e i)
@@ -360,7 +325,7 @@ Section RunFacts.
           apply (foreach_inv _ (fun x => sbc x s /\ good x)).
           + intros j w2 s2 _ [Hy Gy]. rewrite with_block_st. cbn [blk_enter blk_exit].
             assert (Gm : good (upd_mask j s2)) by exact Gy.
-            pose proof (IH true w2 (upd_mask j s2) Hs Gm (fun D => False_ind _ (diff_true_false D))) as R.
+            pose proof (IH w2 (upd_mask j s2) Gm) as R.
             destruct R as [[A1 [A2 [A3 [A4 A5]]]] _]. cbn in A1, A2, A3, A4, A5.
             destruct Hy as [B1 [B2 [B3 B4]]]. unfold sbc, good. cbn.
             rewrite A1, A4, A5. destruct Gy as [Gy1 Gy2]. repeat split; auto.
@@ -370,20 +335,19 @@ Section RunFacts.
   Qed.
 
   Corollary run_restores_exact : forall p w s,
-    safe false p = true -> good s -> mask_clear s -> nf_consistent e s ->
-    st_of (snd (run e ev p w s)) = s.
+    good s -> nf_consistent e s -> st_of (snd (run e ev p w s)) = s.
   Proof.
-    intros. apply (restored_full e); auto. apply (run_restores p false); auto.
+    intros. apply (restored_full e); auto. apply run_restores; auto.
   Qed.
 
   (* ---- per-manager component theorems: ANY body (it may assign parameters, select chains ...) ---- *)
   Lemma temp_params_any_body : forall pdict (body : comp) w s,
-    NoDup (keys (vars s)) -> mask_clear s ->
+    NoDup (keys (vars s)) ->
     (forall w' x, keys (vars (st_of (snd (body w' x)))) = keys (vars x)) ->
     vars (st_of (snd (with_block (blk_enter e (BTempParams pdict)) (blk_exit e (BTempParams pdict)) body w s))) = vars s.
   Proof.
-    intros pdict body w s Hnd C Hk. rewrite with_block_st. cbn [blk_enter blk_exit]. cbn.
-    rewrite (get_all_dic_clear s C). apply set_all_self; auto.
+    intros pdict body w s Hnd Hk. rewrite with_block_st. cbn [blk_enter blk_exit]. cbn.
+    apply set_all_self; auto.
     rewrite Hk. cbn. apply keys_set_all.
   Qed.
 
@@ -405,21 +369,19 @@ Section RunFacts.
   Qed.
 End RunFacts.
 
-(* ------------------------------------------------------------------ the current code does leak in one nesting (F11) *)
+(* ------------------------------------------------------------------ example data *)
 Definition ex_env : env := mkEnv 3 [(0, [0]); (1, [1]); (2, [2])] [(0, [[]]); (1, [[(3, (0, 1))]]); (2, [[]])].
 Definition ex_state : state :=
   mkState [(0, (1, 2)); (1, (3, 5)); (3, (1, 1))] [] [0; 1; 2] false [false; false] [(0, (0, 1))].
 Definition never (n : nat) (s : state) := false.
 
-Lemma temp_params_under_mask_leaks :
-  vars (st_of (snd (run ex_env never
-        (PWith (BMaskParams [(0, (3, 4))]) (PWith (BTempParams [(1, (5, 8))]) PEval)) (O, []) ex_state)))
-  = [(0, (3, 4)); (1, (3, 5)); (3, (1, 1))].
+(* the nestings that leaked before the F11 repair now restore (instances of run_restores_exact) *)
+Lemma temp_params_under_mask_ok :
+  st_of (snd (run ex_env never
+        (PWith (BMaskParams [(0, (3, 4))]) (PWith (BTempParams [(1, (5, 8))]) PEval)) (O, []) ex_state)) = ex_state.
 Proof. vm_compute. reflexivity. Qed.
-
-Lemma temp_params_in_factor_iteration_leaks :
-  vars (st_of (snd (run ex_env never (PFactorIter (PWith (BTempParams [(1, (5, 8))]) PEval)) (O, []) ex_state)))
-  = [(0, (1, 2)); (1, (3, 5)); (3, (0, 1))].
+Lemma temp_params_in_factor_iteration_ok :
+  st_of (snd (run ex_env never (PFactorIter (PWith (BTempParams [(1, (5, 8))]) PEval)) (O, []) ex_state)) = ex_state.
 Proof. vm_compute. reflexivity. Qed.
 
 (* ------------------------------------------------------------------ pre-fix control flow *)
@@ -453,24 +415,17 @@ Lemma old_fitfractions_exn_leaks :
                       (O, []) ex_state))) = [0].
 Proof. vm_compute. reflexivity. Qed.
 
+(* F11: the masked view written back: the mask value 3/4 stays in variable 0 after both blocks *)
+Lemma old_amp_temp_params_under_mask_leaks :
+  vars (st_of (snd (with_block (blk_enter ex_env (BMaskParams [(0, (3, 4))])) (blk_exit ex_env (BMaskParams [(0, (3, 4))]))
+                      (old_amp_temp_params [(1, (5, 8))] return_now) (O, []) ex_state)))
+  = [(0, (3, 4)); (1, (3, 5)); (3, (1, 1))].
+Proof. vm_compute. reflexivity. Qed.
+
 (* ------------------------------------------------------------------ packaged forms *)
 Lemma run_density_unchanged : forall (A : Type) (density : state -> A) e ev p w s,
-  (forall a b, eqm a b -> density a = density b) ->
-  safe false p = true -> good s -> mask_clear s ->
+  (forall a b, eqm a b -> density a = density b) -> good s ->
   density (st_of (snd (run e ev p w s))) = density s.
 Proof.
-  intros A density e ev p w s Hd Hs G C. apply Hd.
-  apply (run_restores e ev p false w s Hs G (fun _ => C)).
-Qed.
-
-Lemma temp_params_under_mask_refuted :
-  exists e ev p s, good s /\ mask_clear s /\ nf_consistent e s /\
-    vars (st_of (snd (run e ev p (O, []) s))) <> vars s.
-Proof.
-  exists ex_env, never, (PWith (BMaskParams [(0, (3, 4))]) (PWith (BTempParams [(1, (5, 8))]) PEval)), ex_state.
-  split; [|split; [|split]].
-  - unfold good. cbn. split; repeat constructor; cbn; intuition discriminate.
-  - intros k _. reflexivity.
-  - reflexivity.
-  - rewrite temp_params_under_mask_leaks. cbn. intro H. discriminate H.
+  intros A density e ev p w s Hd G. apply Hd. apply (run_restores e ev p w s G).
 Qed.
